@@ -20,7 +20,7 @@ fn arr16(b: &[u8]) -> [u8; 16] {
     a
 }
 
-fn check_split(c: &Split) -> CaseResult {
+pub fn check_split(c: &Split) -> CaseResult {
     let (key, iv) = (arr16(&c.key), arr16(&c.iv));
     let total: usize = c.requests.iter().map(|r| *r as usize).sum();
     let want = rzuc::keystream(&key, &iv, total);
